@@ -494,6 +494,41 @@ func ruleIndent(c *Ctx) {
 		l.add("R-INDENT", "v5", "anchor apply function", "", Undecided, "apply function not found", false)
 		return
 	}
+	// the wrappers of the apply function hand its result on untouched: ApplyIndent's output is
+	// Apply's output re-indented only if neither has a way of its own to produce a document
+	for _, w := range b.srcFuncs(b.Lib) {
+		if recvTypeName(w) != "Patch" || !token.IsExported(w.Name()) || w == ai.loopFn {
+			continue
+		}
+		res := w.Signature.Results()
+		if res.Len() != 2 || !isByteSlice(res.At(0).Type()) || !isErrorType(res.At(1).Type()) {
+			continue
+		}
+		key := fmt.Sprintf("%s: a wrapper of the apply function returns exactly what it is handed", fname(w))
+		bad := ""
+		n := 0
+		for _, r := range returnsOf(w) {
+			n++
+			e0, ok0 := r.Results[0].(*ssa.Extract)
+			e1, ok1 := r.Results[1].(*ssa.Extract)
+			okc := false
+			if ok0 && ok1 && e0.Tuple == e1.Tuple && e0.Index == 0 && e1.Index == 1 {
+				if call, ok := e0.Tuple.(*ssa.Call); ok {
+					if f := call.Call.StaticCallee(); f != nil && recvTypeName(f) == "Patch" && f.Pkg == b.Lib {
+						okc = true
+					}
+				}
+			}
+			if !okc {
+				bad = "the return at " + b.posOf(r) + " is not the result pair of a call to the next function of the Apply family: this entry point produces (or alters) a document on its own, past the one encoder call and the options that the apply function honours"
+			}
+		}
+		if bad != "" {
+			l.add("R-INDENT", "v5", key, b.rel(w.Pos()), Violated, bad, true)
+		} else {
+			l.add("R-INDENT", "v5", key, b.rel(w.Pos()), Discharged, fmt.Sprintf("%d return(s), each the untouched result pair of the next Apply function", n), true)
+		}
+	}
 	fn := b.encodeFnOf(ai)
 	var marsh, indent *ssa.Call
 	nMarsh := 0
@@ -625,7 +660,6 @@ func ruleIndent(c *Ctx) {
 		}
 	}
 }
-
 
 // optsStoredOnSuccessEdge: the block entered when the callee answered true stores
 // recv.doc.opts = options before anything else can happen to the node (straight-line code from
